@@ -8,15 +8,23 @@ import (
 	sdk "github.com/cosmos/cosmos-sdk/types"
 )
 
+var c13Src = []types.Account{{Type: types.Main}, {Type: types.InternalAccount, Id: "int1"}, {Type: types.ModuleAccount, Id: dVRC}}
+var c13Dst = []types.Account{{Type: types.ModuleAccount, Id: dGBC}, {Type: types.InternalAccount, Id: "int1"}, {Type: types.BaseAccount, Id: dBase2}, {Type: types.Main}}
+
+// stored parameters: one of two representative valid shapes with symbolic shares
 func verifC13Stored() types.Params {
-	nsub := verif_choice("nsub", 2) + 1
-	var subs []types.SubDistributor
-	for i := 0; i < nsub; i++ {
-		sd := verifSub(i, 1, verif_choice("withShare"+string(rune('1'+i)), 2) == 1)
-		verif_assume(sd.Validate() == nil)
-		subs = append(subs, sd)
+	burn := func(tag string) sdk.Dec { return verif_dec_range(tag, "0", "499999999999999999") }
+	var p types.Params
+	if verif_choice("storedShape", 2) == 0 {
+		p = types.Params{SubDistributors: []types.SubDistributor{{Name: "sd1", Sources: []*types.Account{{Type: types.Main}},
+			Destinations: types.Destinations{PrimaryShare: c13Dst[0], BurnShare: burn("sburn1"),
+				Shares: []*types.DestinationShare{{Name: "share1", Share: burn("sshare1"), Destination: c13Dst[2]}}}}}}
+	} else {
+		p = types.Params{SubDistributors: []types.SubDistributor{
+			{Name: "sd1", Sources: []*types.Account{{Type: types.Main}}, Destinations: types.Destinations{PrimaryShare: c13Dst[1], BurnShare: burn("sburn1"),
+				Shares: []*types.DestinationShare{{Name: "share1", Share: burn("sshare1"), Destination: c13Dst[0]}}}},
+			{Name: "sd2", Sources: []*types.Account{{Type: types.InternalAccount, Id: "int1"}}, Destinations: types.Destinations{PrimaryShare: c13Dst[2], BurnShare: burn("sburn2")}}}}
 	}
-	p := types.Params{SubDistributors: subs}
 	verif_assume(p.Validate() == nil)
 	return p
 }
@@ -38,13 +46,13 @@ func Verif_C13_distributor_updates() {
 		case 0: // full replacement by an arbitrary (possibly invalid) list
 			var subs []types.SubDistributor
 			for i := 0; i < verif_choice("newN", 3); i++ {
-				sd := verifSub(i+2, 1, verif_choice("newWithShare"+string(rune('1'+i)), 2) == 1)
+				sd := verifSubFrom(i+2, 1, verif_choice("newWithShare"+string(rune('1'+i)), 2) == 1, c13Src, c13Dst)
 				sd.Name = verif_str_in("newName"+string(rune('1'+i)), "sd1", "sd2", "")
 				subs = append(subs, sd)
 			}
 			_, err = ms.UpdateParams(g, &types.MsgUpdateParams{Authority: authority, SubDistributors: subs})
 		case 1: // replace one sub-distributor
-			sd := verifSub(3, verif_choice("newNsrc", 2)+1, verif_choice("newWithShare", 2) == 1)
+			sd := verifSubFrom(3, verif_choice("newNsrc", 2)+1, verif_choice("newWithShare", 2) == 1, c13Src, c13Dst)
 			sd.Name = verif_str_in("newName", "sd1", "sd2", "sd9")
 			_, err = ms.UpdateSubDistributorParam(g, &types.MsgUpdateSubDistributorParam{Authority: authority, SubDistributor: &sd})
 		case 2: // change one destination share
